@@ -357,8 +357,16 @@ def s_send_response(vc):
     status = vc.sym_int("status", lo=100, hi=599)
     content = vc.opt("content", vc.sym_bytes("content_v"))
     trailers = vc.case("trailers", [False, True])
-    resp = mk_response(vc, content=None if already_streamed else content, status_code=status, trailers=mk_headers(vc, [(b"x-t", b"1")]) if trailers else None)
-    st, flow, client, server = mk_stream(vc, cs, ss, response=resp, queue=rpe_queue(vc, queued), rawtcp=False, websocket=False, live=g["live"])
+    # a WebSocket handshake that the server REFUSES (any status but 101, response still carrying `Upgrade: websocket`) is an ordinary
+    # request/response flow: no websocket data may be attached to it and it must end not live
+    refused_ws = vc.case("handshake", ["none", "refused_websocket"]) == "refused_websocket"
+    if refused_ws:
+        vc.assume(status != 101)
+    resp = mk_response(vc, content=None if already_streamed else content, status_code=status, trailers=mk_headers(vc, [(b"x-t", b"1")]) if trailers else None,
+                       headers=mk_headers(vc, [(b"Upgrade", b"websocket"), (b"Connection", b"Upgrade")] if refused_ws else []))
+    req = mk_request(vc, stream=(cs == "state_stream_request_body"),
+                     headers=mk_headers(vc, [(b"Upgrade", b"websocket"), (b"Connection", b"Upgrade"), (b"Sec-WebSocket-Version", b"13"), (b"Sec-WebSocket-Key", b"x3JJHMbDL1EzLkh9GBhXDw==")] if refused_ws else []))
+    st, flow, client, server = mk_stream(vc, cs, ss, request=req, response=resp, queue=rpe_queue(vc, queued), rawtcp=False, websocket=refused_ws, live=g["live"])
     pol = {"HttpResponseHook": vc.case("policy@response", ["pass", "kill"])}
     kl = []
     out = vc.call(HS + ".send_response", st, already_streamed, on_yield=addon(vc, pol, killed=kl))
@@ -370,6 +378,7 @@ def s_send_response(vc):
     g2 = run_automaton(vc, "order", g, tr)
     vc.ensure("response_hook_first_and_once", k[:1] == ["HttpResponseHook"] and k.count("HttpResponseHook") == 1)
     vc.ensure("no_error_hook_after_response", "HttpErrorHook" not in k)
+    vc.ensure("websocket_data_only_when_switching_protocols", Implies(status != 101, isnone(flow.websocket)))
     check_exit(vc, "exit", st, flow, g2, tr)
     killed = bool(kl) or queued
     if killed:
@@ -710,6 +719,9 @@ def _exchanges():
         "bad-chunk": [("c", G1), ("s", R_CH[0]), ("s", b"zz\r\nabc\r\n")],
         "expect-100": [("c", P_CL[0].replace(b"\r\n\r\n", b"\r\nExpect: 100-continue\r\n\r\n")), ("c", b"abcd")] + [("s", x) for x in R_204],
         "head": [("c", G1.replace(b"GET", b"HEAD"))] + [("s", R1[0])],
+        # a WebSocket handshake that the server refuses (no protocol switch): an ordinary request/response flow
+        "ws-refused": [("c", G1.replace(b"\r\n\r\n", b"\r\nUpgrade: websocket\r\nConnection: Upgrade\r\nSec-WebSocket-Version: 13\r\nSec-WebSocket-Key: x3JJHMbDL1EzLkh9GBhXDw==\r\n\r\n")),
+                       ("s", b"HTTP/1.1 426 Upgrade Required\r\nUpgrade: websocket\r\nConnection: Upgrade\r\nContent-Length: 2\r\n\r\nno")],
     }
     return ex
 
@@ -784,6 +796,10 @@ def run_exchange(steps, assign, fault, pos, open_error=None, hold=None, release_
             elif fault == "both_close":
                 r.close_server()
                 r.close_client()
+            elif fault == "client_abort":
+                r.abort_client()
+            elif fault == "server_abort":
+                r.abort_server()
             bad += _monitor_inv(r, streamed)
         if who == "c":
             r.feed_client(data)
@@ -799,8 +815,8 @@ def bounded(tier, seed):
     import itertools, random
     from props.http_sansio import lifecycle_violations, outcome_violations
     b = Bounded()
-    b.rule = ("HTTP/1 exchanges (valid and malformed, <= 2 requests) through the real HttpLayer x fault (client close, server close, both, none) injected before "
-              "every step x upstream connect failure x addon policy per lifecycle hook in {pass, kill, set response, stream}; monitors: hook-order automaton per "
+    b.rule = ("HTTP/1 exchanges (valid and malformed, <= 2 requests) through the real HttpLayer x fault (client close, server close, both, client abort, server abort, none) injected before "
+              "every step (close = peer FIN, abort = the proxy's own teardown: ConnectionClosed arrives with the connection already CLOSED) x upstream connect failure x addon policy per lifecycle hook in {pass, kill, set response, stream}; monitors: hook-order automaton per "
               "flow, Inv(client_state, server_state, hooks fired) on every registered stream after every event, exactly one of response/error and not live after "
               "all connections are closed; distinct = (exchange, fault, position, policy assignment); non-trivial = a fault or a non-pass policy")
     ex = _exchanges()
@@ -819,7 +835,7 @@ def bounded(tier, seed):
         for assign in assigns:
             variants = [("none", 0, None, None, 0), ("none", 0, "connection refused", None, 0)]
             for pos in range(len(steps) + 1):
-                for fault in ("client_close", "server_close", "both_close"):
+                for fault in ("client_close", "server_close", "both_close", "client_abort", "server_abort"):
                     variants.append((fault, pos, None, None, 0))
             # intercepted flows: the first completion of one hook is withheld while the fault happens and more events arrive
             if len(assign) <= 1 and (tier != "quick" or not assign or "requestheaders" in assign or assign == {"request": "kill"}):
@@ -978,3 +994,39 @@ def s_addon_response_never_forwarded(vc):
     vc.ensure("no_upstream_connection_recorded", st.context.server is server and flow.server_conn is server)
     vc.ensure("raises_at_most_not_implemented", out.ok or issubclass(out.raised_type(), NotImplementedError))
     vc.ensure("addon_response_kept", flow.response is addon_resp)
+
+
+@scenario("http1.read_body.closed", functions=["mitmproxy.proxy.layers.http._http1:Http1Connection.read_body"])
+def s_h1_read_body_closed(vc):
+    """ConnectionClosed while a message body is being read and the body is incomplete (the h11 reader's read_eof raises ProtocolError): exactly one
+    protocol error for the open stream, whatever the state of the connection object - a peer FIN leaves it half-open, the proxy's own abortive
+    teardown (timeout / shutdown) delivers ConnectionClosed with the connection already CLOSED."""
+    import h11
+    server_side = vc.case("layer", ["Http1Server", "Http1Client"]) == "Http1Server"
+    ref = H1S if server_side else H1C
+    reader = vc.case("body_reader", ["ContentLengthReader", "ChunkedReader"])
+    state = conn_state(vc, "conn_state")
+    client = mk_client(vc, state=state if server_side else None)
+    server = mk_server(vc, state=None if server_side else state, timestamp_start=2.0)
+    ctx = mk_context(vc, client, server)
+    conn = client if server_side else server
+    sid = vc.sym_int("stream_id", lo=1)
+
+    def eof(v, self_):
+        v.raise_(h11.RemoteProtocolError, "peer closed connection without sending complete message body")
+
+    vc.summary("h11._readers:" + reader + ".read_eof", eof)
+    rd = vc.new("h11._readers:" + reader, _length=10, _remaining=6) if reader == "ContentLengthReader" else vc.new("h11._readers:ChunkedReader", _bytes_in_chunk=3, _bytes_to_discard=0, _reading_trailer=False)
+    lay = vc.new(ref, context=ctx, conn=conn, stream_id=sid, buf=_h11buf(vc, vc.sym_bytes("partial")), body_reader=rd, debug=None, _paused=None,
+                 _paused_event_queue=vc.deque([]), request=mk_request(vc), response=None, request_done=False, response_done=False)
+    out = vc.call(ref + ".read_body", lay, vc.new("mitmproxy.proxy.events:ConnectionClosed", connection=conn))
+    vc.ensure("no_exception", out.ok)
+    if not out.ok:
+        return
+    errs = [c for c in out.trace if is_cmd(c, "ReceiveHttp")]
+    want = "RequestProtocolError" if server_side else "ResponseProtocolError"
+    vc.ensure("exactly_one_protocol_error_whatever_the_connection_state", len(errs) == 1 and is_cmd(errs[0].event, want))
+    if len(errs) != 1:
+        return
+    vc.ensure("for_the_open_stream", errs[0].event.stream_id == sid)
+    vc.ensure("nothing_else_received", all(is_cmd(c, "ReceiveHttp") or is_cmd(c, "CloseConnection") for c in out.trace))
